@@ -85,6 +85,24 @@ impl Prop for P {
                 }
             }
         }
+        // the same bytes attached to handles that were opened on OTHER files (map_data swaps the contents
+        // of a handle): lookups answer for the bytes the handle holds now
+        for other in [fst::Set::from_iter(vec!["x"]).unwrap().into_fst().into_inner(), fst::Map::from_iter((0..300u32).map(|i| (format!("k{:05}", i), i as u64 * 3))).unwrap().into_fst().into_inner()] {
+            match Fst::new(other).and_then(|o| o.map_data(|_| bytes.clone())) {
+                Err(e) => x = format!("map_data onto these bytes fails: {}", e),
+                Ok(fm) => {
+                    for (i, p) in probes.iter().enumerate() {
+                        let got = format!("{}/{}", fm.get(p).map(|o| o.value().to_string()).unwrap_or("~".into()), fm.contains_key(p) as u8);
+                        if got != res[i] {
+                            x = format!("handle re-pointed with map_data: probe {} gives {} but {} when the bytes are opened directly", hex(p), got, res[i]);
+                        }
+                    }
+                    if fm.len() != f.len() || fm.fst_type() != f.fst_type() {
+                        x = "handle re-pointed with map_data: len()/fst_type() are those of the old contents".into();
+                    }
+                }
+            }
+        }
         let s = res.join(",");
         format!("S:{}\tM:{}\tX:{}", s, s, x)
     }
